@@ -50,10 +50,10 @@ REQUIRED_PROBES = {"quick": ["lookup_served_from_cache", "definition_after_first
                              "provider_known_id_redefined", "restart_between_definition_and_use",
                              "value_matches_own_definition", "convert_zoneinfo", "convert_pytz",
                              "reparse_of_serialisation", "interleaved_clients", "until_rule", "count_rule",
-                             "rdate_observance", "two_eras", "no_tzname", "slash_prefixed_id"]}
+                             "rdate_observance", "two_eras", "no_tzname", "slash_prefixed_id", "parsed_with_multiple"]}
 REQUIRED_PROBES["thorough"] = REQUIRED_PROBES["quick"]
 
-ID_POOL = ["Sim/A", "Sim/B", "/Sim/A", "Europe/Berlin", "W. Europe Standard Time", "Sïm/Ü"]
+ID_POOL = ["Sim/A", "Sim/B", "/Sim/A", "Europe/Berlin", "W. Europe Standard Time", "Sïm/Ü", "Sim/B/"]
 PROVIDER_ZONE = {"Europe/Berlin": "Europe/Berlin", "W. Europe Standard Time": "Europe/Berlin"}
 UTC = timezone.utc
 COMP_PROPS = {"VEVENT": ["DTSTART", "DTEND", "RECURRENCE-ID", "RDATE", "EXDATE"], "VTODO": ["DTSTART", "DUE", "RDATE"],
@@ -106,7 +106,8 @@ def generate(rng, cfg):
             cal = _gen_calendar(rng, defs, ids)
             slot = rng.randrange(3)
             slots[(c, slot)] = True
-            trace.append([c, "parse", {"slot": slot, "cal": cal}])
+            trace.append([c, "parse", {"slot": slot, "cal": cal, "multiple": rng.random() < 0.25,
+                                       "style": rng.choice(["plain", "plain", "quoted", "value-param"])}])
         elif op == "reserialise":
             mine = sorted(s for (cc, s) in slots if cc == c)
             if not mine:
@@ -187,7 +188,7 @@ def _plus_hour(w):
     return [d.year, d.month, d.day, d.hour, d.minute, d.second]
 
 
-def calendar_text(cal, defs):
+def calendar_text(cal, defs, style="plain"):
     lines = ["BEGIN:VCALENDAR", "VERSION:2.0", "PRODID:-//icalsim//C12//"]
     for i, pos in cal["vtz"]:
         if pos == "before":
@@ -197,6 +198,10 @@ def calendar_text(cal, defs):
         lines.append(f"UID:u{n}")
         for p in cp["props"]:
             par = ";TZID=" + p["tzid"]
+            if style == "quoted":
+                par = ';TZID="' + p["tzid"] + '"'           # a quoted parameter value means the same
+            elif style == "value-param" and p["name"] not in ("FREEBUSY",):
+                par = ";VALUE=DATE-TIME" + par            # the default value type given explicitly
             if p["name"] == "FREEBUSY":
                 # duration form: an explicit end one wall-clock hour later can precede the start across a
                 # DST change of the referenced zone, which the library rightly rejects
@@ -376,7 +381,7 @@ def execute(run, res):
         if op in ("parse", "parse_doc"):
             if op == "parse":
                 cal = a["cal"]
-                data = calendar_text(cal, defs)
+                data = calendar_text(cal, defs, a.get("style", "plain"))
             else:
                 if a["doc"] not in docs:
                     res.skipped += 1
@@ -386,7 +391,15 @@ def execute(run, res):
             res.ops[op] += 1
             pre_sig = cache.signature()
             try:
-                tree = Calendar.from_ical(data)
+                if a.get("multiple"):
+                    trees = Calendar.from_ical(data, multiple=True)
+                    if len(trees) != 1:
+                        res.violate(f"C12/{op}/multiple-count", stepno, f"{len(trees)} calendars returned for one")
+                        continue
+                    tree = trees[0]
+                    res.probe("parsed_with_multiple")
+                else:
+                    tree = Calendar.from_ical(data)
             except Exception as e:
                 res.violate(f"C12/{op}/raised:{type(e).__name__}", stepno, repr(e)[:300])
                 continue
